@@ -75,14 +75,20 @@ func vfFakesStart() *vfFakes {
 		mux := http.NewServeMux()
 		mux.HandleFunc("/vip/query", f.vipHandler)
 		mux.HandleFunc("/vip/auth", f.vipHandler)
-		go (&http.Server{Handler: mux}).Serve(ln)
+		// no keep-alive: every world builds its own client for this server, and the
+		// idle connections of thousands of worlds would exhaust the descriptor limit
+		srv1 := &http.Server{Handler: mux}
+		srv1.SetKeepAlivesEnabled(false)
+		go srv1.Serve(ln)
 		ln2, err := net.Listen("tcp", "127.0.0.1:0")
 		vfMust(err)
 		f.httpAddr = ln2.Addr().String()
 		mux2 := http.NewServeMux()
 		mux2.HandleFunc("/oauth/token", f.oauthToken)
 		mux2.HandleFunc("/oauth/userinfo", f.oauthUserinfo)
-		go (&http.Server{Handler: mux2}).Serve(ln2)
+		srv2 := &http.Server{Handler: mux2}
+		srv2.SetKeepAlivesEnabled(false)
+		go srv2.Serve(ln2)
 		vfFake = f
 	})
 	vfFake.Reset()
